@@ -35,6 +35,9 @@ R_le(i)    == [k |-> "le",    n |-> "le",       a |-> i, text |-> "le=" \o ToStr
 RePat      == "'^[a,b]+$'"
 R_re       == [k |-> "re",    n |-> "re",       a |-> 0, text |-> "re=" \o RePat, key |-> "re", val |-> RePat, msg |-> "", lab |-> ""]
 R_rem(m)   == [k |-> "re",    n |-> "re",       a |-> 0, text |-> "re=" \o RePat \o "|" \o m, key |-> "re", val |-> RePat, msg |-> m, lab |-> Lab(m)]
+\* a second pattern for the same fields (given by a rule-map override where the tag carries RePat): matches "zz" only
+RePat2     == "'^z+$'"
+R_re2      == [k |-> "re",    n |-> "re",       a |-> 0, text |-> "re=" \o RePat2, key |-> "re", val |-> RePat2, msg |-> "", lab |-> ""]
 
 JoinText(rs) == IF rs = <<>> THEN "" ELSE FoldLeft(LAMBDA acc, r : acc \o "," \o r.text, rs[1].text, Tail(rs))
 
@@ -104,7 +107,7 @@ TE(T, rm)  == [T |-> T, rm |-> rm]
 RMGet(rm, name) == LET hits == SelectSeq(rm, LAMBDA e : e.f = name) IN IF hits = <<>> THEN <<>> ELSE hits[1].rs
 TypedGet(typed, T) == LET hits == SelectSeq(typed, LAMBDA e : e.T = T) IN IF hits = <<>> THEN <<>> ELSE hits[1].rm
 
-UnscopedOf(T) == IF ShapeA(T) THEN <<RME("A", <<R_fn("p_t6")>>), RME("S", <<R_req>>)>>
+UnscopedOf(T) == IF ShapeA(T) THEN <<RME("A", <<R_fn("p_t6")>>), RME("S", <<R_re2, R_req>>)>>
                  ELSE <<RME("X", <<R_le(2)>>), RME("L", <<R_req>>)>>
 TypedOf(T) == IF ShapeA(T) THEN <<TE(T, <<RME("B", <<R_ge(4), R_fn("p_t5")>>)>>)>>
               ELSE <<TE("T3", <<RME("P", <<R_fn("p_t1")>>)>>)>>
@@ -129,7 +132,7 @@ E(k, v) == [k |-> k, v |-> v]
 Menu12 == <<
   DStruct("m01", "T1", "valid", ValsA("T1")[1], <<>>, <<>>, <<"p_t2">>),
   DStruct("m02", "T1", "a",     ValsA("T1")[2], <<>>, <<>>, <<"p_t1">>),
-  DStruct("m03", "T1", "valid", ValsA("T1")[3], <<>>, UnscopedOf("T1"), <<>>),
+  DStruct("m03", "T1", "valid", ValsA("T1")[1], <<>>, UnscopedOf("T1"), <<>>),    \* S = "zz": under the override's pattern, not the tag's
   DStruct("m04", "T1", "valid", ValsA("T1")[3], <<TE("T1", <<RME("B", <<R_ge(2)>>)>>)>>, <<>>, <<"p_t4">>),
   DStruct("m05", "T2", "valid", ValsB("T2")[1], TypedOf("T2"), <<>>, <<"p_t1">>),
   DStruct("m06", "T2", "a",     ValsB("T2")[2], <<>>, <<>>, <<>>),
@@ -224,7 +227,7 @@ EvRule(cfg, obj, fname, depth, fv, r) ==
     [] r.k = "exist" -> IF Zero(fv) THEN <<>> ELSE Desc(cfg, obj, fname, depth, fv)
     [] r.k = "ge" -> IF Zero(fv) \/ fv.n >= r.a THEN <<>> ELSE <<Cl(VPath(obj, fname), "lt", ToString(r.a), EchoOf(fv))>>
     [] r.k = "le" -> IF Zero(fv) \/ fv.n <= r.a THEN <<>> ELSE <<Cl(VPath(obj, fname), "gt", ToString(r.a), EchoOf(fv))>>
-    [] r.k = "re" -> IF Zero(fv) \/ fv.re THEN <<>>
+    [] r.k = "re" -> IF Zero(fv) \/ (IF r.val = RePat2 THEN fv.s = "zz" ELSE fv.re) THEN <<>>
                      ELSE <<Cl(VPath(obj, fname), IF r.msg = "" THEN "re" ELSE "custom", r.msg, fv.s)>>
 EvRules(cfg, obj, fname, depth, fv, rs) ==
   FlattenSeq([i \in 1..Len(rs) |-> EvRule(cfg, obj, fname, depth, fv, rs[i])])
